@@ -27,12 +27,25 @@ class _MatMulAddToGemmBase(RewriteRuleClassBase, abc.ABC):
             attributes["transB"] = 1
         return op.Gemm(input_a, input_b, input_c, **attributes)
 
-    def check(self, context, input_a, input_b, **_):
+    def check(self, context, input_a, input_b, input_c, **_):
         del context  # Not used
         check_result = MatchResult()
         # Rank of input_a and input_b must be 2
         if not (_ir_utils.has_rank(input_a, 2) and _ir_utils.has_rank(input_b, 2)):
             return check_result.fail("Rank of input_a and input_b must be 2")
+        # Add broadcasts both ways; Gemm requires C to be unidirectionally broadcastable to (M, N).
+        c_shape = input_c.shape
+        if c_shape is None or c_shape.rank() > 2:
+            return check_result.fail("input_c must have a known shape of rank <= 2")
+        out_dims = (
+            input_b.shape[0 if self.trans_b else 1],
+            input_a.shape[1 if self.trans_a else 0],
+        )
+        for c_dim, out_dim in zip(reversed(c_shape.dims), out_dims):
+            if isinstance(c_dim, int) and c_dim == 1:
+                continue
+            if not _ir_utils.same_dim(c_dim, out_dim):
+                return check_result.fail("input_c is not broadcastable to the MatMul output shape")
         return check_result
 
 
